@@ -34,6 +34,8 @@ def run(out, tier, seed):
     out.add_tlc(r)
     out.extra["mc_pae_states"] = r.distinct
     out.exhaustive = True
+    if tier == "thorough":
+        C.refinement(out, "c15", True)      # injectivity is what makes the L1 -> L0 refinement hold; "no length prefix" must break it
     d = C.ensure_dir(os.path.join(C.BUILD, "c15"))
     f = os.path.join(d, "obs.ndjson")
     C.harness(["obs-pae", "--out", f, "--tier", tier, "--seed", str(seed)])
